@@ -6,10 +6,10 @@ ID=$1; shift
 CHECKS=${@:-$ID}
 cd /verif
 git -C /repo status --short | grep -q . && { echo "/repo not clean"; exit 3; }
-git -C /repo apply /verif/seeded/$ID/patch.diff || { echo "patch does not apply"; exit 3; }
+git -C /repo apply /verif/${SEEDDIR:-seeded}/$ID/patch.diff || { echo "patch does not apply"; exit 3; }
 for C in $CHECKS; do
   out=$(./check $C --tier quick --seed 1 2>&1); rc=$?
-  echo "== seeded/$ID under check $C: rc=$rc"
+  echo "== ${SEEDDIR:-seeded}/$ID under check $C: rc=$rc"
   echo "$out" | grep -E "VIOLATION|KNOWN-FINDING|INCONCLUSIVE" | head -5
 done
 git -C /repo checkout -- .
